@@ -151,6 +151,94 @@ CLAIMED.update({
               "Coq proof over Gallina model + differential correspondence + node walk"),
 })
 
+CLAIMED.update({
+    "C01": _c("Differential execution of generated programs over the public API (30+ ops incl. setitem, ufunc where=/out=, sliding windows, "
+              "map_overlap, fancy take, views; shared subtrees; directed families) against NumPy with shrinking to the smallest failing "
+              "sub-program; Coq (coq/Properties/C01.v): the N-d array calculus (NdArray.v) — slices, broadcasting and transposes read only "
+              "in-bounds positions and the modelled __getitem__ denotes NumPy's basic slicing.  Proof-partial by nature: the property "
+              "quantifies over all API programs; the modelled fragment is the index-remapping core.",
+              "5/C01", _TB + "NumPy is the oracle; outside the modelled fragment the property is decided by execution only.",
+              "Coq array calculus for the index-remapping core + differential execution vs NumPy"),
+    "C02": _c("Coq (coq/Properties/C02.v, 29 obligations): for every modelled rewrite rule (slice identity / slice-over-slice / slice through "
+              "elemwise with broadcasting / through transpose / through expand_dims / into arange / into from_array regions, transpose "
+              "fusion, rechunk fusion / no-op / into from_array / through elemwise) `rule before = Some after -> wf before -> aeq (den "
+              "before) (den after)` for all shapes and indices.  Tie: every rewrite that fires is captured as objects; instances of a "
+              "modelled rule are reified and checked structurally inside Coq against the rule function (translation validation), ALL "
+              "instances are validated by executing before/after, and raw/simplified/lowered/fused forms are compared by value.",
+              "5/C02", _TB + "unmodelled rules (_lower rules, shuffle/concatenate/broadcast pushdowns) are validated by execution only; "
+              "harness/c02_rules.py reifier.", "Coq rule-soundness theorems + per-fired-rewrite translation validation"),
+    "C03": _c("Coq (coq/Properties/C03.v): slice chunks equal produced piece lengths (C13), rechunk blocks have the requested sizes (C15), "
+              "the advertised shape is the denoted shape and modelled rewrites keep advertised shape / chunks; every advertised key of "
+              "generated + directed programs is executed and each block's shape/dtype compared with .chunks/.dtype.",
+              "5/C03", _TB + "ops outside the modelled rules are checked by execution only.", "Coq chunk theorems + block-by-block execution check"),
+    "C05": _c("Coq (coq/Properties/C05.v, 17 obligations): a model of FromGraph's key location (expected key / own key / unique covering "
+              "name / error) never maps a block to another block; persist rebuild keeps name/chunks/dtype; RootAlias pins (raw, b) to "
+              "(optimized, b) bijectively; all entry points equal execution of the pinned graph.  Tie: synthetic and real persisted layers "
+              "go through the real FromGraph / RootAlias classes and are compared with the model in Coq; 7 entry points x generated "
+              "programs x follow-on operation compared with x.compute().", "5/C05",
+              _TB + "dask's generic optimizer (dask.optimize, known finding F7) is outside the model; chunk SIZES are not modelled "
+              "(findings C05-A/B live there).", "Coq protocol model + differential correspondence + entry-point differential"),
+    "C06": _c("Coq (coq/Properties/C06.v): a model of how every expression class builds its name/token (stock tokenizer, classes that omit "
+              "operands, hand-built Rechunk / FromArray region / Random names, pins); under injective hash hypotheses equal names imply "
+              "equal content, the omitted operands are content-irrelevant, and name-keyed caches (registry, lowering cache, graph merge) "
+              "never return a different computation for any history.  Tie: every node of all forms of generated programs + operand "
+              "probes is reified and Coq checks the model reproduces the equality pattern of real names/tokens; in-process name/key "
+              "collision search with value fingerprints.", "5/C06", _TB + "hash injectivity (H_injective) and leaf tokenization are assumed.",
+              "Coq naming model (injectivity under hash hypotheses) + correspondence of equality patterns"),
+    "C07": _c("Coq (coq/Properties/C07.v): names are functions of tokenizable inputs only (identity-tokenized operands are the documented "
+              "exception), __reduce__ round trip keeps name/token.  Tie + exploration: rebuild in-process, in fresh interpreters with "
+              "different PYTHONHASHSEED, cloudpickle round trips loaded here and in a fresh interpreter, per-node pickles checked against "
+              "the model; name, keys, optimized key set, chunks, dtype, Frisky keys, values compared.", "5/C07", _TB, "Coq naming model + cross-process / pickle determinism check"),
+    "C08": _c("Coq (coq/Properties/C08.v): a linear measure strictly decreases for 10 modelled rewrite rules (so any strategy over them "
+              "terminates) with monotonicity lemmas.  Exploration: programs that compute from their raw form must simplify/lower/fuse under "
+              "a watchdog without error and be idempotent (simplify, lower, fuse, optimize), incl. rechunk/concat/slice towers, nested "
+              "unification above view-like nodes and empty selections.", "5/C08",
+              _TB + "dask's fixpoint driver (Expr.simplify) and unmodelled rules are covered by the watchdog only.", "Coq termination measure for modelled rules + watchdog/idempotence exploration"),
+    "C09": _c("Coq (coq/Properties/C09.v): for every history of build/materialize/drop and every configuration, cache entries denote what "
+              "their name denotes provided lowering preserves denotation (discharged for the rechunk planner and chunk unification by "
+              "C15/C17 theorems); the stronger 'lowered FORM is a function of the name' is refuted (= F5).  Tie: the real _LOWER_CACHE "
+              "request stream of generated histories is replayed through the model; values of histories with options switched at every "
+              "step compared with the history-free NumPy value.", "5/C09", _TB + "traversal order and planners enter as oracles.",
+              "Coq cache-invariant theorem + replay of the real lowering cache + history/config exploration"),
+    "C11": _c("Coq (coq/Properties/C11.v): a mutation-history model (collections = pointers to immutable expressions + derived caches): after "
+              "any op sequence caches are coherent, no op changes another collection's expression, derived collections keep the expression "
+              "captured at derivation, identity-returning derivations alias; 1-D denotation of slice assignment.  Tie: real histories are "
+              "replayed (object identity, cache sets, names) against the model; after every step the target is compared with NumPy, every "
+              "other collection with its value at derivation (masked values included), keys with the current name.", "5/C11", _TB,
+              "Coq mutation-history model + correspondence + history exploration vs NumPy"),
+    "C14": _c("Coq (coq/Properties/C14.v, 26 obligations): executing the modelled task-rechunk graph yields blocks whose concatenation is the "
+              "input and block j is exactly segment j of the new layout (1-D, any layouts incl. zero-size; rank-2 product version), "
+              "single-source blocks are aliases, multi-step plans compose, Rechunk.chunks = normalize_chunks of the merged spec and is a "
+              "valid layout for all oracles, balance preserves sums, _validate_rechunk accepts iff shapes agree (nan-aware); " + _TIE + "; "
+              "real TasksRechunk layers compared piece by piece.", "5/C14", _TB + "N-d values beyond rank 2 by execution; auto_chunks with "
+              "previous_chunks is an oracle.", "Coq proof over Gallina model + differential correspondence"),
+    "C20": _c("Coq (coq/Properties/C20.v, 29 obligations): the block_info/block_id payload model (incl. drop_axis/new_axis/chunks=) describes "
+              "exactly the grid of the layout at call time (array-location tiles the axis, chunk-shape = interval lengths, block given = "
+              "block described); ChunksFreeze lowering restores the frozen layout or refuses; the grid-preservation gate accepts only "
+              "chunk-preserving pushdowns; " + _TIE + " (real ArrayValuesDep payloads, ChunksFreeze.lower_once, _preserve_grid_contract); "
+              "a recording block function checks every invocation under rewrites above/below.", "5/C20", _TB, "Coq proof over Gallina model + differential correspondence + instrumented function"),
+    "C21": _c("Coq (coq/Properties/C21.v, 22 obligations): a compiler-correctness proof of the records flattening (_Flattener/_records): "
+              "declared deps are exactly the embedded refs, lifted sub-keys are fresh, evaluating the flattened records equals evaluating "
+              "the source graph for every topological order, completeness iff the source graph is closed, shared-seen walks emit each layer "
+              "once and their union equals one walk.  Tie: real layers are reified and Coq checks flatten(input) = real records "
+              "structurally; real records are executed and compared block by block with __dask_graph__.", "5/C21",
+              _TB + "native Rust layers absent (generic translation + the pure-Python fused layer only).", "Coq compiler-correctness proof + structural correspondence + records executor"),
+    "C23": _c("Coq (coq/Properties/C23.v): RNG seed-derivation state machine: a node's per-block seeds are fixed at construction, derived "
+              "programs are functions of that realization, successive arrays get disjoint seeds, pickle carries the seeds.  Tie: real "
+              "per-block SeedSequences compared with the model; recompute / rebuild / pickle / derived programs compared with the same "
+              "NumPy function of the one realization.", "5/C23", _TB + "NumPy bit generators are an oracle; RandomState path on the Python side only.",
+              "Coq seed-derivation model + correspondence + realization-consistency exploration"),
+    "C28": _c("Coq (coq/Properties/C28.v, 38 obligations): nan-aware models of _validate_rechunk, old_to_new on unknown axes, the blockdim "
+              "functions, the slicing guard and ChunksOverride: guards refuse or preserve 'advertised known sizes are true sizes'; "
+              "compute_chunk_sizes is exact; " + _TIE + "; data-dependent selections and follow-on operations compared with NumPy.",
+              "5/C28", _TB, "Coq proof over Gallina model + differential correspondence + exploration vs NumPy"),
+    "C29": _c("Coq (coq/Properties/C29.v, 19 obligations): meta_from_array requests an empty selection for every shape with ndim >= 1 (one "
+              "element for 0-d sources: refuted clause = F31), compute_meta calls the function once on empty arguments under stated "
+              "hypotheses; " + _TIE + " (recorded requests of recording array-likes/functions); recording sources and block functions "
+              "under construction, all metadata accessors, optimize, explain.", "5/C29", _TB + "the parametricity statement is about a toy "
+              "metadata language (true by construction, said so).", "Coq meta model + differential correspondence + instrumented sources"),
+})
+
 NOT_APPLICABLE = {
     "C22": "native Rust layers cannot be built or run here (pyo3 0.29 and build crates absent from the offline cargo cache, no prebuilt _rust*.so), so no model of them can be tied to the code",
 }
